@@ -10,6 +10,9 @@ CONSTANTS
   AllowStop = FALSE
   AllowFault = FALSE
   AliveCheck = TRUE
+  PhaseOn = {1, 2, 3, 4, 5}
+  AllowCtrlC = FALSE
+  MaxNFE = 1
 INVARIANT ProtocolOK
 INVARIANT ClosedAtEnd
 INVARIANT NoProblemLost
